@@ -1173,6 +1173,12 @@ func metadataHeaders(headers map[string][]string, at time.Time, sizeLimit int) (
 			hk == "Content-Type" ||
 			hk == "Content-Disposition" ||
 			hk == "Content-Encoding" {
+			// Metadata is sent back as response headers. Request headers are
+			// always fit for that, the fields of a browser form upload are
+			// arbitrary bytes:
+			if !validHeaderField(hk, hv[0]) {
+				return meta, ErrorMessagef(ErrInvalidArgument, "metadata field %q cannot be stored as a header", hk)
+			}
 			meta[hk] = hv[0]
 		}
 	}
@@ -1183,6 +1189,26 @@ func metadataHeaders(headers map[string][]string, at time.Time, sizeLimit int) (
 	}
 
 	return meta, nil
+}
+
+// validHeaderField reports whether name is an HTTP header field name (a
+// token) and value contains no control characters other than a tab.
+func validHeaderField(name, value string) bool {
+	if name == "" {
+		return false
+	}
+	for i := 0; i < len(name); i++ {
+		c := name[i]
+		if c <= ' ' || c >= 0x7f || strings.IndexByte("()<>@,;:\\\"/[]?={}", c) >= 0 {
+			return false
+		}
+	}
+	for i := 0; i < len(value); i++ {
+		if c := value[i]; (c < ' ' && c != '\t') || c == 0x7f {
+			return false
+		}
+	}
+	return true
 }
 
 func listBucketPageFromQuery(query url.Values) (page ListBucketPage, rerr error) {
